@@ -185,10 +185,12 @@ class PopenExecutor(concurrent.futures.Executor):
 
         Raises ShutdownError if the executor has been shutdown."""
 
-        if self._shutdown.is_set():
-            raise ShutdownError()
-
         with self._lock:
+            # the flag must be checked under the lock, otherwise shutdown(wait=False)
+            # can sweep self._futures between the check and the registration
+            if self._shutdown.is_set():
+                raise ShutdownError()
+
             self._futures.append(future)
             future.start()
             return future
